@@ -77,9 +77,10 @@ type specCfg struct {
 }
 
 type specRun struct {
-	cfg    *specCfg
-	visits int
-	abort  string
+	cfg       *specCfg
+	ptrStores map[string]sval // values stored through caller-made field pointers (path-insensitive: last store wins; used for read-after-write inside one helper)
+	visits    int
+	abort     string
 }
 
 func (cfg *specCfg) run(fn *ssa.Function, args []sval) ([]specOutcome, string) {
@@ -210,6 +211,17 @@ func (sr *specRun) fnFree(fn *ssa.Function, args []sval, free []sval, depth int)
 					// load through a pointer to a tracked local
 					x.ptr = false
 					env[in] = x
+				case in.Op == token.MUL && !isAddrInstr(in.X) && x.ptr && strings.HasPrefix(x.sym, "&") && derefPath(env, in.X, x) != "":
+					// load through a pointer the caller made of a field of a non-local object (&lit.Val): the field —
+					// unless this path has stored through the pointer already
+					dp := derefPath(env, in.X, x)
+					if v, ok := sr.ptrStores[dp]; ok {
+						env[in] = v
+					} else if bv, ok := sr.cfg.Paths[dp]; ok {
+						env[in] = bv
+					} else {
+						env[in] = symv(dp)
+					}
 				case in.Op == token.MUL:
 					// load: bound access path?
 					p := path(in)
@@ -237,7 +249,11 @@ func (sr *specRun) fnFree(fn *ssa.Function, args []sval, free []sval, depth int)
 					} else if z, ok := untouchedZero(env, in); ok {
 						env[in] = z // a field of a local that no store on this path has reached yet: its zero value
 					} else if ep, ok := envPath(env, in); ok {
-						env[in] = symv(ep)
+						if bv, bound := sr.cfg.Paths[ep]; bound {
+							env[in] = bv
+						} else {
+							env[in] = symv(ep)
+						}
 					} else {
 						env[in] = symv(p)
 					}
@@ -246,6 +262,19 @@ func (sr *specRun) fnFree(fn *ssa.Function, args []sval, free []sval, depth int)
 				}
 			case *ssa.Store:
 				specStore(env, in.Addr, get(in.Val))
+				if !isAddrInstr(in.Addr) {
+					if av := get(in.Addr); av.ptr && strings.HasPrefix(av.sym, "&") {
+						// a store through a pointer to a field of a non-local object handed in by the caller
+						dp := av.sym[1:]
+						if sr.ptrStores == nil {
+							sr.ptrStores = map[string]sval{}
+						}
+						sr.ptrStores[dp] = get(in.Val)
+						if sr.cfg.StoreEffects {
+							conds = append(append([]string{}, conds...), "effect:store "+dp+" := "+get(in.Val).String())
+						}
+					}
+				}
 				if sr.cfg.StoreEffects {
 					// a store through a field of something that is not a tracked local: an effect on the heap
 					if fa, isFA := in.Addr.(*ssa.FieldAddr); isFA {
@@ -264,7 +293,15 @@ func (sr *specRun) fnFree(fn *ssa.Function, args []sval, free []sval, depth int)
 					break
 				}
 				x := get(in.X)
-				if x.tup != nil && in.Field < len(x.tup) {
+				if prm, isP := in.X.(*ssa.Parameter); isP && x.tup == nil && x.sym != "" && !x.ptr && x.sym != pname(prm) && !strings.ContainsAny(x.sym, " (") {
+					// a struct handed in by value under another name: the field of what the caller passed
+					p2 := x.sym + "." + fieldNameV(in)
+					if bv, ok := sr.cfg.Paths[p2]; ok {
+						env[in] = bv
+					} else {
+						env[in] = symv(p2)
+					}
+				} else if x.tup != nil && in.Field < len(x.tup) {
 					env[in] = x.tup[in.Field]
 				} else if c, isC := in.X.(*ssa.Const); isC && c.Value == nil {
 					// a field of the zero value of a struct
@@ -811,6 +848,11 @@ func envPath(env map[ssa.Value]sval, v ssa.Value) (string, bool) {
 			return b.sym, true
 		}
 		return envPath(env, x.X)
+	case *ssa.Alloc:
+		// a local that holds what the caller passed by value (a spilled struct parameter)
+		if b, ok := specLoad(env, x); ok && plain(b) && !b.ptr && !strings.ContainsAny(b.sym, " (") {
+			return b.sym, true
+		}
 	case *ssa.FieldAddr:
 		s, ok := envPath(env, x.X)
 		return s + "." + fieldName(x), ok
@@ -887,4 +929,12 @@ func isAddrInstr(v ssa.Value) bool {
 		return true
 	}
 	return false
+}
+
+// derefPath: x is the value of a pointer operand that stands for the address of a non-local field ("&a.b.c").
+func derefPath(env map[ssa.Value]sval, ptr ssa.Value, x sval) string {
+	if !x.ptr || !strings.HasPrefix(x.sym, "&") || len(x.sym) < 2 {
+		return ""
+	}
+	return x.sym[1:]
 }
